@@ -271,7 +271,41 @@ let enum k0 k1 gz limit =
   Printf.eprintf "enum %s %s gz=%s: %d maximal histories, %d printed%s\n" k0 k1 gz total printed
     (if stride > 1 then Printf.sprintf " (every %d-th)" stride else "")
 
+(* an N of any size in hex without leading zeros ("0" for zero), as strconv.FormatUint(x, 16) prints it *)
+let hex_of_n (x : n) : String.t =
+  match x with
+  | N0 -> "0"
+  | Npos p ->
+    let rec bits p acc = match p with        (* LSB first *)
+      | XH -> List.rev (1 :: acc)
+      | XO q -> bits q (0 :: acc)
+      | XI q -> bits q (1 :: acc) in
+    let l = bits p [] in
+    let rec nibbles l acc = match l with
+      | [] -> acc
+      | a :: b :: c :: d :: r -> nibbles r ((a + 2*b + 4*c + 8*d) :: acc)
+      | [a; b; c] -> (a + 2*b + 4*c) :: acc
+      | [a; b] -> (a + 2*b) :: acc
+      | [a] -> a :: acc in
+    String.concat "" (List.map (fun d -> String.make 1 "0123456789abcdef".[d]) (nibbles l []))
+
+(* reqid: Z payload ok:<hex>|err (oracle), K id kind body ... -> id \t <64-bit pattern in hex> *)
+let reqid () =
+  let gz : (String.t, String.t) Hashtbl.t = Hashtbl.create 64 in
+  let inflate (payload : n list) : n list option =
+    match Hashtbl.find_opt gz (hex_of_bytes payload) with
+    | Some "err" -> None
+    | Some r -> Some (bytes_of_hex (String.sub r 3 (String.length r - 3)))
+    | None -> (prerr_endline ("ORACLE-ERROR: inflate oracle has no entry for " ^ hex_of_bytes payload); exit 3) in
+  iter_lines (fun l ->
+    match split_tab l with
+    | "Z" :: payload :: res :: _ -> Hashtbl.replace gz (hex_of_bytes (bytes_of_hex payload)) res
+    | "K" :: id :: _ :: body :: _ ->
+      Printf.printf "%s\t%s\n" id (hex_of_n (req_msg_id_of inflate (bytes_of_hex body)))
+    | _ -> ())
+
 let () =
   match Array.to_list Sys.argv with
+  | _ :: "reqid" :: _ -> reqid ()
   | _ :: "enum" :: k0 :: k1 :: gz :: lim :: _ -> enum k0 k1 gz (int_of_string lim)
   | _ -> replay ()
